@@ -12,7 +12,7 @@ from props import _design
 TITLE = "exhausted IterateSATGen = valid set"
 LEVEL = "proof"
 DOMAINS = ['Design', 'DocSem', 'T2']
-EXTRA_PROPERTY_FILES = ["T2", "T2c", "T2e"]   # theorems about Design/DocSem.v, the Gallina rendering of the documented semantics
+EXTRA_PROPERTY_FILES = ["T2", "T2c", "T2e", "T2d"]   # theorems about Design/DocSem.v, the Gallina rendering of the documented semantics
 STRAT = "IterateSATGen"
 
 
@@ -99,10 +99,40 @@ def t2c_layer(ctx, res, batch):
             {"layer": "T2c-plain", "theorems": ["T2c_*"], "program": progs[i], "result": r[:2000]}, failing_input=False))
 
 
+def t2d_layer(ctx, res):
+    """The same chain for single CrossBlocks with within-trial derived factors (the Stroop shape):
+    Front/DerivedInput.v computes from the PROGRAM the inputs create_flat used to read from the real block
+    (exclusion counts, generated derivations, excluded_derived, error flag); the created flat record must
+    equal the real one, constructor exceptions must agree, and inside the guard t2d_guard the proved checker
+    (T2d_checker_sound, T2d_derived_valid_partial) must accept code_sem vs doc_sem."""
+    import json
+    import t2_corr
+    from common import Violation
+    progs = t2_corr.derived_programs(ctx.rng, 400 if ctx.quick else 4000)
+    stats = {}
+    try:
+        bad = t2_corr.compare_derived(progs, stats)
+    except Exception as e:  # noqa
+        res.violations.append(Violation("corr:T2d", "T2(d) layer failed: %r" % (e,), {"layer": "T2d-derived", "error": repr(e)},
+                                        failing_input=False))
+        return
+    badi = {i for i, _ in bad}
+    for i in range(len(progs)):
+        res.layer("T2d-derived", i not in badi)
+    res.extra["t2d_derived"] = dict(sorted(stats.items(), key=lambda kv: -kv[1])[:25])
+    if bad:
+        i, r = bad[0]
+        res.violations.append(Violation(
+            "corr:T2d", "program -> derived_input -> create_flat -> code_sem vs doc_sem breaks on %d programs, e.g. %s on %s" % (
+                len(bad), r[:200], json.dumps(progs[i])[:600]),
+            {"layer": "T2d-derived", "theorems": ["T2d_*"], "program": progs[i], "result": r[:2000]}, failing_input=False))
+
+
 def run(ctx, res):
     batch = _design.load(ctx, res)
     docsem_layer(res, batch)
     t2c_layer(ctx, res, batch)
+    t2d_layer(ctx, res)
     for r in _design.analysed(batch):
         _design.count(res, r)
         d = diff(r, STRAT)
